@@ -9,8 +9,8 @@ GROUPS = {
  'simplify': ('dcmmeta.py: _simplify, _get_const_period, is_constant, is_repeating',
    [('is_constant_is_model', 'is_constant_eq'), ('is_repeating_is_model', 'is_repeating_eq'),
     ('get_const_period_is_model', 'get_const_period_eq'), ('simplify_is_model', 'simplify_eq')]),
- 'lookup': ('dcmmeta.py: NiftiWrapper.meta_valid, get_meta index arithmetic',
-   [('get_meta_index_is_model', 'get_meta_index_eq'), ('meta_valid_is_model', 'meta_valid_eq')]),
+ 'lookup': ('dcmmeta.py: NiftiWrapper.get_meta, meta_valid',
+   [('get_meta_index_is_model', 'get_meta_index_eq'), ('meta_valid_is_model', 'meta_valid_eq'), ('get_meta_is_model', 'get_meta_eq')]),
  'valid': ('dcmmeta.py: DcmMetaExtension.check_valid', [('check_valid_is_model', 'check_valid_eq')]),
  'shapes': ('dcmmeta.py: result shapes of get_subset / from_sequence',
    [('subset_shape_is_model', 'subset_shape_eq'), ('merge_shape_is_model', 'merge_shape_eq')]),
@@ -31,8 +31,10 @@ GROUPS = {
  'insert': ('dcmmeta.py: per-key dictionary edits of merges (_change_class, _insert_slice, _insert_non_slice, _insert_sample)',
    [('change_class_is_model', 'change_class_eq'), ('reclassify_is_model', 'reclassify_eq'), ('insert_slice_is_model', 'insert_slice_eq'),
     ('insert_non_slice_is_model', 'insert_non_slice_eq'), ('insert_sample_is_model', 'insert_sample_eq')]),
- 'subset': ('dcmmeta.py: per-key dictionary edits of subsets (_copy_slice, _copy_sample)',
-   [('copy_slice_is_model', 'copy_slice_eq'), ('copy_sample_is_model', 'copy_sample_eq')]),
+ 'subset': ('dcmmeta.py: get_subset for one key of the parent (class dispatch, _copy_slice, _copy_sample)',
+   [('copy_slice_is_model', 'copy_slice_eq'), ('copy_sample_is_model', 'copy_sample_eq'),
+    ('get_subset_slice_axis_is_model', 'get_subset_key_slice_eq'), ('get_subset_spatial_axis_copies', 'get_subset_key_spatial_eq'),
+    ('get_subset_sample_axis_is_model', 'get_subset_key_sample_eq')]),
  'header': ('dcmstack.py: the slice-timing block of DicomStack.to_nifti',
    [('header_slice_times_is_model', 'header_slice_times_eq')]),
  'stackadd': ('dcmstack.py: DicomStack.add_dcm, _chk_congruent, _chk_close, _chk_equal',
